@@ -397,12 +397,27 @@ static inline int data_probe_chunk_length(htp_connp_t *connp) {
  * @returns HTP_OK on state change, HTP_ERROR on error, or HTP_DATA when more data is needed.
  */
 htp_status_t htp_connp_RES_BODY_CHUNKED_LENGTH(htp_connp_t *connp) {
+    // Set once the probe has definitively seen that the first significant character
+    // of the current line is a chunk length digit; the answer cannot change after that.
+    int probe_ok = 0;
+
     for (;;) {
         OUT_COPY_BYTE_OR_RETURN(connp);
 
+        // Is this not chunked after all? Probing rescans the line from its beginning, so
+        // do it only until the answer is known; otherwise a line of leading white space
+        // followed by many digits costs quadratic time.
+        int not_chunked = 0;
+        if ((connp->out_next_byte != LF) && (!probe_ok) && (!is_chunked_ctl_char((unsigned char) connp->out_next_byte))) {
+            if (!data_probe_chunk_length(connp)) {
+                not_chunked = 1;
+            } else if (connp->out_current_read_offset - connp->out_current_consume_offset >= 8) {
+                probe_ok = 1;
+            }
+        }
+
         // Have we reached the end of the line? Or is this not chunked after all?
-        if (connp->out_next_byte == LF ||
-                (!is_chunked_ctl_char((unsigned char) connp->out_next_byte) && !data_probe_chunk_length(connp))) {
+        if (connp->out_next_byte == LF || not_chunked) {
             unsigned char *data;
             size_t len;
 
@@ -424,6 +439,7 @@ htp_status_t htp_connp_RES_BODY_CHUNKED_LENGTH(htp_connp_t *connp) {
             // empty chunk length line, lets try to continue
             if (connp->out_chunked_length == -1004) {
                 connp->out_current_consume_offset = connp->out_current_read_offset;
+                probe_ok = 0;
                 continue;
             }
             if (connp->out_chunked_length < 0) {
